@@ -113,6 +113,8 @@ def run(seed=0, rounds=12):
                     ru, rc = np.unique(x, return_counts=True)
                     check('unique counts ' + dt, (u, c), (ru, rc), dtype_strict=False)
                     check('intersect1d ' + dt, snp.intersect1d(sx, sy), np.intersect1d(x, y))
+                    check('intersect1d assume_unique ' + dt, snp.intersect1d(sx, sy, assume_unique=True),
+                          np.intersect1d(x, y, assume_unique=True))
                     check('argsort stable ' + dt, snp.argsort(sx, kind='stable'), np.argsort(x, kind='stable'))
                     check('sort ' + dt, snp.sort(sx), np.sort(x))
                     check('nonzero ' + dt, snp.nonzero(sx > 3)[0], np.nonzero(x > 3)[0])
